@@ -222,3 +222,42 @@ Proof.
   destruct (C19_indexes_rebuilt ex_cfg 0 0 ex_state wf_cfg_ex (ReachV_Reach _ _ reachV_ex_state))
     as (A & B & _). split; assumption.
 Qed.
+
+(* ------------------------------------------------------------------ *)
+(* The code walks the by-binding marker index 0x14 (keeper/fees.go:213, invocation.go:768-770:
+   order service, provider text, expiry, id), the model refunds in request-id order: for a
+   reachable state ANY order of the same refunds succeeds and gives the same balances. *)
+Theorem C19_refund_order_irrelevant cfg s l' : wf_cfg cfg -> Reach cfg s ->
+  Permutation (refund_list s ++ earned_list s) l' ->
+  exists s1 s1', pay_all (refund_list s ++ earned_list s) s = Some s1 /\ pay_all l' s = Some s1'
+    /\ forall x, bal s1' x = bal s1 x.
+Proof.
+  intros Hcfg Hr P. set (l := refund_list s ++ earned_list s) in *.
+  destruct (C19_reach_hyps cfg s Hcfg Hr) as (Hb & Hc & (Hq & He) & _).
+  assert (Hnn : forall x, In x l -> 0 <= snd x).
+  { intros x Hin. unfold l in Hin. apply in_app_or in Hin as [Hin|Hin].
+    - unfold refund_list in Hin. apply in_flat_map in Hin as ([r q] & Hin & Hx).
+      unfold active_reqs in Hin. apply (Permutation_in _ (isort_perm _ _)) in Hin.
+      apply filter_In in Hin as [Hin Ha]. cbn [snd] in Ha.
+      unfold refund_item in Hx. cbn [fst snd] in Hx.
+      destruct (get (rid_ctx r) (ctxs s)); [|contradiction].
+      destruct Hx as [<-|[]]. cbn [snd]. eauto.
+    - destruct x as [p e]. cbn [snd]. eapply He. exact Hin. }
+  assert (Htot : total l <= bal s Escrow).
+  { unfold l. rewrite total_app, total_refund_list, total_earned_list by assumption.
+    unfold escrow_backed in Hb. lia. }
+  destruct (pay_all_ok l s Hnn Htot) as (s1 & E1).
+  assert (Hnn' : forall x, In x l' -> 0 <= snd x).
+  { intros x Hin. apply Hnn. eapply Permutation_in; [apply Permutation_sym; exact P|exact Hin]. }
+  assert (Htot' : total l' <= bal s Escrow).
+  { unfold total in *. now rewrite <- (lsum_perm snd l l' P). }
+  destruct (pay_all_ok l' s Hnn' Htot') as (s1' & E1').
+  exists s1, s1'. split; [exact E1|]. split; [exact E1'|].
+  destruct (pay_all_bal _ _ _ E1) as (U1 & X1 & D1 & F1).
+  destruct (pay_all_bal _ _ _ E1') as (U2 & X2 & D2 & F2).
+  intros [a| | |].
+  - rewrite U1, U2. unfold owed_to. now rewrite (lsum_perm _ l l' P).
+  - rewrite X1, X2. unfold total. now rewrite (lsum_perm snd l l' P).
+  - congruence.
+  - congruence.
+Qed.
